@@ -167,6 +167,11 @@ func (i *messageField) Scan(src interface{}) error {
 		return fmt.Errorf("unsupported Scan, storing driver.Value type %T into type %T", src, *i)
 	}
 
+	if !isSingleLine(i.value) {
+		*i = messageField{}
+		return errors.New("input is multiline")
+	}
+
 	i.set = true
 
 	return nil
